@@ -18,10 +18,12 @@ HeapValues == <<
   O(<<>>), O(<< <<"a", JStr("x")>> >>), O(<< <<"a", JInt(1)>> >>),
   O(<< <<"a", JStr("x")>>, <<"b", JInt(2)>> >>), O(<< <<"a", JStr("x")>>, <<"z", JStr("y")>> >>),
   O(<< <<"z", JInt(1)>> >>), O(<< <<"a", JStr("x")>>, <<"class", JInt(3)>> >>), JInt(5),
-  O(<< <<"a", JStr("xy")>>, <<"b", JStr("q")>> >>) >>
+  O(<< <<"a", JStr("xy")>>, <<"b", JStr("q")>> >>), O(<< <<"a", JStr("xy")>> >>) >>
 
-E0 == Mk("Element", [properties |-> << Prop("a", "a", TRUE, StringE),
-                                       Prop("b", "b", FALSE, Mk("Integer", [default |-> JInt(1)])) >>])
+E0 == Mk("Element", [properties |-> << Prop("a", "a", TRUE,
+                                            MkComp("AllOf", << StringE, Mk("Element", [minLength |-> 1]) >>, EmptyKw)),
+                                       Prop("b", "b", FALSE, Mk("Integer", [default |-> JInt(1)])) >>,
+                     patternProperties |-> << <<"^a", Mk("Element", [maxLength |-> 1])>> >>])
 C0 == MkObj("C", [properties |-> << Prop("a", "a", TRUE, StringE),
                                     Prop("class_", "class", FALSE, IntegerE) >>,
                   minProperties |-> 1])
